@@ -152,6 +152,11 @@ pub fn probe(func: &str) -> bool {
         return false;
     }
     let ops = operands();
+    crate::CASES.fetch_add(ops.len() * ops.len(), std::sync::atomic::Ordering::Relaxed);
+    {
+        let mut smp = crate::SAMPLE.lock().unwrap();
+        if smp.is_empty() { *smp = format!("every unary rule on {} operands, every binary rule and comparison on every ordered pair of them (values 0, -1.5, 0.5, 2, 1 x variable layouts shared / permuted / subset / superset / disjoint / overlapping), against an independent reference AD", ops.len()); }
+    }
     let nrm = Normal::new(0.0, 1.0).unwrap();
     // ---- unary
     for (ia, a, ra) in &ops {
